@@ -1,0 +1,18 @@
+//! Event sink for the conformance harness in /verif (compiled only with
+//! `--cfg rust_dsymbols_verif`; nothing in the library depends on it).
+
+use std::cell::RefCell;
+
+thread_local! {
+    static EVENTS: RefCell<Vec<String>> = RefCell::new(Vec::new());
+}
+
+/// Appends one event (a JSON object as text) to the thread-local log.
+pub fn emit(event: String) {
+    EVENTS.with(|e| e.borrow_mut().push(event));
+}
+
+/// Returns the events logged so far on this thread and clears the log.
+pub fn take() -> Vec<String> {
+    EVENTS.with(|e| std::mem::take(&mut *e.borrow_mut()))
+}
